@@ -310,6 +310,10 @@ fn visit_input_value<'a, Visitor, UserContext>(
 
             let input_type = context.current_input_type_literal().and_then(|t| match t {
                 Type::ListType(inner_type) => Some(inner_type.as_ref()),
+                Type::NonNullType(non_null_inner) => match non_null_inner.as_ref() {
+                    Type::ListType(inner_type) => Some(inner_type.as_ref()),
+                    _ => None,
+                },
                 _ => None,
             });
 
